@@ -111,7 +111,8 @@ impl Pattern {
                 let is_unbounded = repetition.max.is_none();
                 let is_greedy = repetition.greedy;
 
-                is_dot && is_unbounded && is_greedy
+                // A greedy dot repetition may also sit below this repetition, e.g. `(a.*)+`
+                (is_dot && is_unbounded && is_greedy) || Self::has_greedy_all(&repetition.sub)
             }
             HirKind::Empty => false,
             HirKind::Literal(_literal) => false,
